@@ -1304,6 +1304,16 @@ def _minmax(name):
                 uniq.append(a)
         if len(uniq) == 1:
             return uniq[0]
+        # min(a + c, b + c) = min(a, b) + c: the smallest rational constant term is taken out, so that
+        # min(k, n - 1) and min(k + 1, n) - 1 have one normal form
+        consts = []
+        for a in uniq:
+            c0 = a.expand().n.get((), None) if a.is_poly() else None
+            consts.append(c0.re if c0 is not None and c0.im == 0 else (Q(0) if a.is_poly() else None))
+        if all(c is not None for c in consts) and any(c != 0 for c in consts):
+            m = min(consts)
+            if m != 0:
+                return as_expr(m) + f(*[a - as_expr(m) for a in uniq])
         srt = sorted(uniq, key=repr)
         pos = all(manifest_sign(a) == {"+"} for a in srt)
         return fn(name, *srt, pos=pos)
